@@ -16,7 +16,10 @@ EXTENDS SigBase
 CONSTANTS KeyLists,      \* the key lists (sequences of DISTINCT keys = ordered key sets) to build from
           Thresholds,    \* the thresholds tried with every list
           RawLen,        \* raw token scripts up to this length are submitted
-          Alphabet       \* tokens of the raw scripts
+          Alphabet,      \* tokens of the raw scripts
+          AgainLists,    \* key lists of the builds made WHILE an earlier result is still held by the caller
+          AgainThr,      \* their thresholds
+          MaxHeld        \* how many earlier results the caller keeps
 
 VARIABLES keys, m,      \* arguments of the last build ( <<>> , 0 for raw scripts)
           origin,       \* "none" | "built" | "builderr" | "raw" | "mutated"
@@ -24,19 +27,20 @@ VARIABLES keys, m,      \* arguments of the last build ( <<>> , 0 for raw script
           addr,         \* AddressFromPubKey / AddressFromMultiPubKeys of the build arguments (NoAddr on error)
           parsed,       \* result of GetProgramInfo
           phase,        \* "idle" | "have" | "parsed"
+          held,         \* results of earlier builds the caller still holds: sequence of [keys, m, script]
           act
 
-vars == <<keys, m, origin, script, addr, parsed, phase, act>>
+vars == <<keys, m, origin, script, addr, parsed, phase, held, act>>
 State == [keys |-> keys, m |-> m, origin |-> origin, script |-> script, addr |-> addr, parsed |-> parsed, phase |-> phase]
 
 Init == /\ keys = <<>> /\ m = 0 /\ origin = "none" /\ script = <<>> /\ addr = NoAddr /\ parsed = ParseFail
-        /\ phase = "idle" /\ act = [name |-> "Init"]
+        /\ phase = "idle" /\ held = <<>> /\ act = [name |-> "Init"]
 
 ProgramFromPubKey(k) ==
     /\ phase = "idle"
     /\ keys' = <<k>> /\ m' = 1 /\ origin' = "built"
     /\ script' = BuildSingle(k) /\ addr' = AddrOfKey(k, FALSE)
-    /\ phase' = "have" /\ UNCHANGED parsed
+    /\ phase' = "have" /\ UNCHANGED <<parsed, held>>
     /\ act' = [name |-> "ProgramFromPubKey"]
 
 ProgramFromMultiPubKey(ks, mm) ==
@@ -45,13 +49,13 @@ ProgramFromMultiPubKey(ks, mm) ==
     /\ IF BuildMultiOK(ks, mm)
        THEN origin' = "built" /\ script' = BuildMulti(ks, mm) /\ addr' = AddrOfMulti(ks, mm)
        ELSE origin' = "builderr" /\ script' = <<>> /\ addr' = NoAddr          \* "wrong multi-sig param"
-    /\ phase' = "have" /\ UNCHANGED parsed
+    /\ phase' = "have" /\ UNCHANGED <<parsed, held>>
     /\ act' = [name |-> "ProgramFromMultiPubKey"]
 
 SubmitRaw(s) ==
     /\ phase = "idle"
     /\ keys' = <<>> /\ m' = 0 /\ origin' = "raw" /\ script' = s /\ addr' = NoAddr
-    /\ phase' = "have" /\ UNCHANGED parsed
+    /\ phase' = "have" /\ UNCHANGED <<parsed, held>>
     /\ act' = [name |-> "SubmitRaw"]
 
 \* token-level mutations of a built script
@@ -76,26 +80,39 @@ ApplyMut(s, mu) ==
     ELSE [s EXCEPT ![mu.i] = KeyTok(@.v, "bad", "direct")]
 
 MutateScript(mu) ==
-    /\ phase = "have" /\ origin = "built"
+    /\ phase = "have" /\ origin = "built" /\ held = <<>>      \* (mutations are explored for first builds only: bound)
     /\ mu \in Mutations(script)
     /\ ApplyMut(script, mu) # script
     /\ script' = ApplyMut(script, mu) /\ origin' = "mutated"
-    /\ UNCHANGED <<keys, m, addr, parsed, phase>>
+    /\ UNCHANGED <<keys, m, addr, parsed, phase, held>>
     /\ act' = [name |-> "MutateScript", mu |-> mu]
 
 GetProgramInfo ==
     /\ phase = "have" /\ origin # "builderr"
     /\ parsed' = Parse(script)
     /\ phase' = "parsed"
-    /\ UNCHANGED <<keys, m, origin, script, addr>>
+    /\ UNCHANGED <<keys, m, origin, script, addr, held>>
     /\ act' = [name |-> "GetProgramInfo"]
 
-Other == GetProgramInfo \/ (phase = "have" /\ origin = "built" /\ \E mu \in Mutations(script) : MutateScript(mu))
+\* the caller keeps the script it was given and builds another one (a history of builder calls on one process:
+\* the builder is a function of its arguments, so nothing it returned earlier may change - a scratch buffer that is
+\* recycled while a returned script still aliases it would break exactly this)
+BuildOf(ks, mm) == IF Len(ks) = 1 THEN BuildSingle(ks[1]) ELSE BuildMulti(ks, mm)
+BuildAgain(ks, mm) ==
+    /\ phase \in {"have", "parsed"} /\ origin = "built" /\ Len(held) < MaxHeld
+    /\ Len(ks) > 1 /\ BuildMultiOK(ks, mm)
+    /\ held' = Append(held, [keys |-> keys, m |-> m, script |-> script])
+    /\ keys' = ks /\ m' = mm /\ origin' = "built" /\ script' = BuildMulti(ks, mm) /\ addr' = AddrOfMulti(ks, mm)
+    /\ phase' = "have" /\ UNCHANGED parsed
+    /\ act' = [name |-> "BuildAgain"]
+
+Other == GetProgramInfo \/ (phase = "have" /\ origin = "built" /\ held = <<>> /\ \E mu \in Mutations(script) : MutateScript(mu))
 
 Next == \/ (phase = "idle" /\ \/ \E ks \in KeyLists : (Len(ks) = 1 /\ ProgramFromPubKey(ks[1]))
                               \/ \E ks \in KeyLists, mm \in Thresholds : ProgramFromMultiPubKey(ks, mm)
                               \/ \E n \in 0..RawLen : \E s \in [1..n -> Alphabet] : SubmitRaw(s))
         \/ Other
+        \/ \E ks \in AgainLists, mm \in AgainThr : BuildAgain(ks, mm)
 Spec == Init /\ [][Next]_vars
 
 -----------------------------------------------------------------------------
@@ -111,6 +128,11 @@ RoundTrip == (phase = "parsed" /\ origin = "built") =>
 \* the script (hence the account address) does not depend on the order the keys were given in
 OrderFree == (origin = "built" /\ Len(keys) > 1) =>
              \A other \in KeyLists : SameSet(other, keys) => (BuildMultiOK(other, m) /\ AddrOfMulti(other, m) = addr)
+\* every script the caller still holds is what the builder returned for its arguments, whatever was built since,
+\* and still parses back to its own keys and threshold
+HeldStable == \A i \in DOMAIN held :
+             /\ held[i].script = BuildOf(held[i].keys, held[i].m)
+             /\ LET p == Parse(held[i].script) IN p.ok /\ KeyVals(p.keys) = SortKeys(held[i].keys) /\ p.m = held[i].m
 \* invalid thresholds / key counts are rejected, by the builder ...
 BuildRejectsInvalid == (origin = "built" /\ Len(keys) > 1) => MultiParamOK(m, Len(keys))
 BuildAcceptsValid   == (origin = "builderr") => ~MultiParamOK(m, Len(keys))
